@@ -213,21 +213,44 @@ def check_to_string(f, fn, rep, analyze_fn):
         ok = bool(hit) and all(c.args[0] == T.param(1) for c in hit)
         rep.require(ok, "to-string", fn["qual"] + ":delegates", w, "calls %s(param)" % stem,
                     "%s does not call %s on its parameter" % (fn["qual"], stem))
-        # the Some payload must flow into the returned String
+        # the Some payload must flow into the returned String: directly (`s.to_string()`), or through a combinator whose mapping
+        # function is a string conversion (`.map_or_else(|| format!(..), str::to_string)`, `.map(String::from)`, ...)
+        CONV = ("string::ToString::to_string", "borrow::ToOwned::to_owned", "convert::From::from", "convert::Into::into", "string::String::from_str")
+        closures = [g for g in f.all_fns() if g["qual"].startswith(fn["qual"] + "::{closure")]
+
+        def converts(x):
+            if x.op == "fnptr":
+                q = str(x.args[0])
+                return any(k in q for k in ("to_string", "to_owned", "String as std::convert::From", "String as convert::From", "::from", "::into"))
+            if x.op == "agg" and x.args[0] == "closure":
+                g = f.fn(x.args[1]) if isinstance(x.args[1], str) else None
+                if g is not None:
+                    return any(c2.declared_norm in CONV and c2.args and c2.args[0].mentions(T.param(2)) for c2 in analyze_fn(f, g).calls())
+            return False
         ok2 = False
         for c in calls:
-            if c.declared_norm in ("string::ToString::to_string", "borrow::ToOwned::to_owned", "convert::From::from",
-                                 "convert::Into::into", "string::String::from_str") and hit:
+            if c.declared_norm in CONV and hit:
                 a0 = c.args[0]
                 if a0.mentions(hit[0].result):
                     ok2 = True
+            if c.declared_norm in ("option::Option::map_or_else", "option::Option::map_or", "option::Option::map") and hit \
+                    and c.args and c.args[0].mentions(hit[0].result) and any(converts(x) for x in c.args[1:]):
+                ok2 = True
         rep.require(ok2, "to-string", fn["qual"] + ":some", w, "Some(s) branch converts s",
                     "%s: the Some(s) result of %s does not flow into the returned String" % (fn["qual"], stem))
-    # numeric fallback: a fmt argument constructed from a reference to the parameter
+    # numeric fallback: a fmt argument constructed from a reference to the parameter (in the function or in a closure that captures it)
     ok3 = False
     for c in calls:
         if "fmt::rt::Argument" in c.declared_norm and c.args and c.args[0].is_ref_to_param(1):
             ok3 = True
+    for g in [g for g in f.all_fns() if g["qual"].startswith(fn["qual"] + "::{closure")]:
+        for c in analyze_fn(f, g).calls():
+            if "fmt::rt::Argument" in c.declared_norm and c.args and c.args[0].mentions(T.param(1)):
+                # the closure's environment holds (a reference to) the parameter: confirm the capture at the creation site
+                for c0 in calls:
+                    for x in c0.args:
+                        if x.op == "agg" and x.args[0] == "closure" and x.args[1] == g["qual"] and any(y.is_ref_to_param(1) or y is T.param(1) for y in x.args[4]):
+                            ok3 = True
     rep.require(ok3, "to-string", fn["qual"] + ":fallback", w, "format!(.. {param} ..)",
                 "%s: the fallback text is not formatted from the numeric parameter" % fn["qual"])
 
